@@ -1,5 +1,5 @@
 (* C06 -- Queries relate dimensions exactly as the stored records relate them.
-   Statements only; every proof is `exact <lemma>` from Proofs/JoinProofs{,B,C,D,X,X2,X3,X4,X5}.v.  Model: Model/Join.v over the C12
+   Statements only; every proof is `exact <lemma>` from Proofs/JoinProofs{,B,C,D,X,X2,...,X7}.v.  Model: Model/Join.v over the C12
    universe model; `jc_current` = the current universe and its spatial families REGENERATED from dimensions.yaml
    (Gen/Universes.v) + the view-of map (band <- physical_filter, checked against the implementation on every run).
 
@@ -18,11 +18,15 @@
      keys_nodup d          the association list of tables has one entry per element (proved for every history)
      qrecords c ov s e     Butler.query_dimension_records(e): the query over e's minimal group with e's table joined too
      temporal_fams / tjoin_needed / explicit_tjoin    temporal families of a group, automatic / explicit temporal join
+     operand / query_op / spec_op    a join operand (materialization, uploaded data IDs, dataset search) = one more relation over
+                           a closed sub-group; op_embeds = the operand's group contains both most fine-grained spatial members of
+                           the QUERY's dimensions (only then is the automatic spatial join skipped)
      ov, env, env_sound    abstract geometry: exact overlap, common-skypix envelope, "overlapping regions share a pixel" *)
 From Coq Require Import String List Bool ZArith NArith Permutation.
 From V Require Import Model.Universe Model.Group Gen.Universes Model.Join Model.JoinCheck
   Proofs.GroupProofs Proofs.JoinProofs Proofs.JoinProofsB Proofs.JoinProofsC Proofs.JoinProofsD
-  Proofs.JoinProofsX Proofs.JoinProofsX2 Proofs.JoinProofsX3 Proofs.JoinProofsX4 Proofs.JoinProofsX5.
+  Proofs.JoinProofsX Proofs.JoinProofsX2 Proofs.JoinProofsX3 Proofs.JoinProofsX4 Proofs.JoinProofsX5
+  Proofs.JoinProofsX6 Proofs.JoinProofsX7.
 Import ListNotations.
 Open Scope string_scope.
 Open Scope list_scope.
@@ -306,6 +310,62 @@ Theorem order_independent_benign : forall (ov : N -> N -> bool) (env : N -> list
                /\ l = spec c ov (recs s) ns /\ l' = spec c ov (recs s') ns.
 Proof. exact order_independent_benign_p. Qed.
 Print Assumptions order_independent_benign.
+
+(* ---- join operands: Query.materialize / join_data_coordinates / join_dataset_search, then data_ids(G) ----
+   ds = closure (G ++ operand dims).  For ANY plan: when the operand does not carry the spatial join the hypotheses of
+   plan_correct, when it does a plan of specification elements containing the relationship-defining tables: the rows are
+   exactly spec_op = the brute-force rows over ds lying in the operand (with the overlap condition on the most
+   fine-grained members of ds unless the operand's group contains both of them) *)
+Theorem operand_plan_correct : forall (ov : N -> N -> bool) (env : N -> list N),
+  (forall x y, ov x y = true -> exists p, In p (env x) /\ In p (env y)) ->
+  forall c s plan ds o,
+  wf_universe (ju c) = true -> uni_okb c = true ->
+  fk_closed c (recs s) -> view_closed c (recs s) -> ovl_sound c env s -> ovl_nonnull c s ->
+  (forall t, In t plan -> In t (ju c)) -> covers c plan ds = true -> spatial_pair c ds <> SpMany ->
+  (op_embeds c ds o = false -> plan_sub c ds plan /\ incl (mandatory c ds) plan) ->
+  (op_embeds c ds o = true -> (forall t, In t plan -> In t (spec_elems c ds)) /\ incl (filter defines_rel (gelems c ds)) plan) ->
+  run_plan_op c ov s plan ds o = QOk (spec_op c ov (recs s) ds o).
+Proof. exact operand_plan_correct_p. Qed.
+Print Assumptions operand_plan_correct.
+
+Theorem operand_query_correct : forall (ov : N -> N -> bool) (env : N -> list N),
+  (forall x y, ov x y = true -> exists p, In p (env x) /\ In p (env y)) ->
+  forall c s ds o,
+  wf_universe (ju c) = true -> uni_okb c = true -> plan_okb_op c ds = true ->
+  fk_closed c (recs s) -> view_closed c (recs s) -> ovl_sound c env s -> ovl_nonnull c s ->
+  query_op c ov s ds o = QOk (spec_op c ov (recs s) ds o).
+Proof. exact operand_query_correct_p. Qed.
+Print Assumptions operand_query_correct.
+
+(* an operand that does not carry the join only FILTERS the plain specification: no row outside spec can appear *)
+Theorem operand_not_embedded_filters : forall c ov d ds o, op_embeds c ds o = false ->
+  spec_op c ov d ds o = filter (in_operand o) (spec c ov d ds).
+Proof. exact spec_op_not_embedded. Qed.
+Print Assumptions operand_not_embedded_filters.
+
+Theorem plan_ns_total_current : forallb closed_plan_ns_okb (all_subsets (nonskypix_dimension_names u_current)) = true.
+Proof. exact plan_ns_total_current_p. Qed.
+Print Assumptions plan_ns_total_current.
+
+Theorem history_operand_query_correct_current : forall (ov : N -> N -> bool) (env : N -> list N),
+  (forall x y, ov x y = true -> exists p, In p (env x) /\ In p (env y)) ->
+  forall h l ds o, In l (all_subsets (nonskypix_dimension_names u_current)) -> closure u_current l = GOk ds ->
+  skip_free h = true -> view_closed jc_current (recs (run_hist jc_current env h st0)) ->
+  query_op jc_current ov (run_hist jc_current env h st0) ds o
+  = QOk (spec_op jc_current ov (recs (run_hist jc_current env h st0)) ds o).
+Proof. exact history_operand_query_correct_current_p. Qed.
+Print Assumptions history_operand_query_correct_current.
+
+(* the granularity rule on the shipped universe: a {visit, tract} operand under a {visit, detector, patch} query does not
+   carry the join between visit_detector_region and patch *)
+Theorem operand_granularity_current :
+  op_embeds jc_current ds_fine (mkOpd ds_coarse []) = false
+  /\ op_embeds jc_current ds_fine (mkOpd ds_fine []) = true
+  /\ op_embeds jc_current ds_coarse (mkOpd ds_coarse []) = true
+  /\ (match spatial_pair jc_current ds_fine with SpPair a b => (ename a, ename b) | _ => ("", "") end)
+     = ("visit_detector_region", "patch").
+Proof. exact operand_granularity_current_p. Qed.
+Print Assumptions operand_granularity_current.
 
 (* ---- non-vacuity: a reachable state satisfying every hypothesis, with a spatial query that returns a row ---- *)
 Example geometry_witness : forall x y, ov_w x y = true -> exists p, In p (env_w x) /\ In p (env_w y).
